@@ -33,3 +33,23 @@ Definition dreplay_case (inner : nat) (rs : list nat) (slots : list nat) (deps :
   let xc := mkXC (fun i => existsb (Nat.eqb i) rs) (fun i => nth (i - 1) slots 1) (opt_nat mc) (opt_nat mw) in
   let c := mkDC xc (match inner with O => IStep | S n => IBlock n end) (fun i => nth (i - 1) deps []) in
   join ";" (dreplay c picks (dinit ncalls prog)).
+
+From EL Require Import Model.LiveSpec.
+
+Fixpoint dcheck (c : dcfg) (picks : list tid) (d : dstate) (n : nat) : string :=
+  if negb (wait_list_drained_b d) then "step " ++ sn n ++ ": wait list not drained"
+  else if negb (scan_not_alone_b (dx c) (xs d)) && negb (existsb (fun t => negb (tid_eqb t TD)) (denabled c d))
+       then "step " ++ sn n ++ ": scan alone"
+  else match picks with
+       | [] => if drest_ok_b c d then "ok" else "rest state not final"
+       | t :: rest => match dstep c d t with
+                      | Some (d', _) => dcheck c rest d' (S n)
+                      | None => "stuck"
+                      end
+       end.
+
+Definition dcheck_case (inner : nat) (rs : list nat) (slots : list nat) (deps : list (list nat)) (mc mw : nat)
+           (ncalls : nat) (prog : list op) (picks : list tid) : string :=
+  let xc := mkXC (fun i => existsb (Nat.eqb i) rs) (fun i => nth (i - 1) slots 1) (opt_nat mc) (opt_nat mw) in
+  let c := mkDC xc (match inner with O => IStep | S n => IBlock n end) (fun i => nth (i - 1) deps []) in
+  dcheck c picks (dinit ncalls prog) 0.
